@@ -51,7 +51,7 @@ for d in $SRC/[A-Z]*/[a-z]; do
   if [ $keep = yes ]; then
     mkdir -p /verif/seeded/$name
     cp $d/patch.diff /verif/seeded/$name/
-    for f in demo_test.go demo.js run.sh demo.sh notes.md extra_conc_test.go demo_wasm_test.go equiv_test.go equiv.sh driver.js driver.py expected.jsonl expected.json golden.json property.txt; do [ -f $d/$f ] && cp $d/$f /verif/seeded/$name/; done
+    for f in api_equiv_test.go equiv_wasm_test.go driver.js demo_test.go demo.js run.sh demo.sh notes.md extra_conc_test.go demo_wasm_test.go equiv_test.go equiv.sh driver.js driver.py expected.jsonl expected.json golden.json property.txt; do [ -f $d/$f ] && cp $d/$f /verif/seeded/$name/; done
     python3 - "$name" "$id" "$d" <<'PY'
 import json,sys,os
 name,pid,d=sys.argv[1:4]
